@@ -11,7 +11,7 @@ Negative->Negative, Positive->Positive; chained_indices consumes every segment w
 swap_remove of the same candidate, seed popped), starts every new chain in forward mode, stops at ambiguous junctions, and each
 of its cycles consumes a pair, switches direction or flushes the finished chain.
 Mesh::transform moves the vertices on every path (shared with C03); Mesh::create_box hands width, height, depth to box_geom in its own order (shared with C12).
-The on-plane epsilon of section is a constant <= 1e-6; every exit of split, of each kind, is parry's verdict (no short-cut classification). Round 5: Mesh::new / new_with_uv store TriMesh::new(vertices, triangles) as built (no flags set afterwards, nothing depending on is_solid)."""
+The on-plane epsilon of section is a constant <= 1e-6; every exit of split, of each kind, is parry's verdict (no short-cut classification). Round 5: Mesh::new / new_with_uv store TriMesh::new(vertices, triangles) as built (no flags set afterwards, nothing depending on is_solid). Round 6 (shared with C19): the Plane3 (normal, d) convention - a plane built from a normal and a point keeps that normal."""
 NOT_DECIDED = "incidence of section vertices with the plane and the surface, closedness for watertight meshes, area conservation (all parry)"
 ASSUMPTIONS = ["parry intersection_with_local_plane returns a polyline whose index pairs are the crossing segments"]
 
